@@ -362,6 +362,10 @@ impl<R: Read> Reader<R> {
             STRIPPED_CPIO_MAGIC_NUMBER => {
                 // char    fx[8];
                 let file_index = read_hex_u32(&mut inner)?;
+                // Pad out to a multiple of 4 bytes, as the writer does.
+                if let Some(mut padding) = pad(STRIPPED_CPIO_HEADER_LEN) {
+                    inner.read_exact(&mut padding)?;
+                }
                 RpmPayloadEntry::Stripped(file_index)
             }
             _ => {
@@ -374,7 +378,15 @@ impl<R: Read> Reader<R> {
 
         let file_size: u64 = match entry {
             RpmPayloadEntry::Cpio(ref c) => c.file_size as u64,
-            RpmPayloadEntry::Stripped(idx) => file_entries[idx as usize].size as u64,
+            RpmPayloadEntry::Stripped(idx) => match file_entries.get(idx as usize) {
+                Some(file_entry) => file_entry.size as u64,
+                None => {
+                    return Err(io::Error::new(
+                        io::ErrorKind::InvalidData,
+                        "Stripped entry refers to a file that is not in the header",
+                    ));
+                }
+            },
         };
 
         Ok(Reader {
